@@ -54,9 +54,14 @@ Fixpoint first_fail (l : list (bool * string)) : string :=
   end.
 Definition in_range (lo x hi : Z) : bool := (lo <=? x) && (x <=? hi).
 
-(* history_bounded: no list grows beyond max(historySize, what it was) *)
+(* history_bounded: every list of the message after the call has at most
+   historySize entries, or is no longer than a list the message had for that
+   size class before the call *)
 Definition hist_ok (h : nat) (pre post : smap) : bool :=
-  forallb (fun kp => (List.length (pe (snd kp)) <=? Nat.max h (List.length (pe (m_get_d (fst kp) pre))))%nat) post.
+  forallb (fun kp =>
+    (List.length (pe (snd kp)) <=? h)%nat
+    || existsb (fun kp0 => (fst kp0 =? fst kp)%N
+                           && (List.length (pe (snd kp)) <=? List.length (pe (snd kp0)))%nat) pre) post.
 
 Inductive mph :=
 | MIdle
